@@ -182,6 +182,7 @@ def history_shard(st, shard, nshards, payload):
                     if idx % nshards != shard:
                         continue
                     inp = {'naming': ('int', 'str', 'tuple', 'opaque')[(idx // nshards) % 4],
+                           'tamper': (idx // nshards) % 3 == 0,
                            'ops': ghist.interleave(edits, q, mode, k)}
                     st.evaluations += 1
                     if nt:
